@@ -33,9 +33,10 @@ func (core *JApiCore) processContext(d *directive.Directive, root *[]*directive.
 						d.String(),
 					))
 				}
-				*root = append(*root, d)
-				core.currentContextDirective = d
-				return nil
+				// A method with its own path doesn't belong to the URL: look for its
+				// place further out (the root, unless we are inside a macro).
+				core.currentContextDirective = core.currentContextDirective.Parent
+				continue
 			}
 
 			d.Parent = core.currentContextDirective
